@@ -5,18 +5,10 @@
    X-basis qubits) and measures computational-basis qubits only. *)
 From Coq Require Import ZArith List Bool Lia ZifyBool.
 Import ListNotations.
-From QCE Require Import C09.Stim C09.Sem C09.Model C09.ProofsSem.
+From QCE Require Import C09.Stim C09.Sem C09.Model C09.Wf C09.ProofsSem.
 Open Scope Z_scope.
 
 (* ------------------------------------------------------------------ decidable conditions *)
-Fixpoint nodupb (l : list Z) : bool :=
-  match l with [] => true | x :: t => negb (zmem x t) && nodupb t end.
-Definition disjointb (a b : list Z) : bool := forallb (fun q => negb (zmem q b)) a.
-Definition gate_ok (anc data : list Z) (e : Z * Z) : bool :=
-  (zmem (fst e) anc && zmem (snd e) data) || (zmem (fst e) data && zmem (snd e) anc).
-Definition layer_ok (anc data : list Z) (gates : list (Z * Z)) : bool :=
-  forallb (gate_ok anc data) gates && nodupb (active anc gates).
-
 Lemma nodupb_NoDup l : nodupb l = true -> NoDup l.
 Proof.
   induction l as [|x t IH]; simpl; intros H; [constructor|].
@@ -163,11 +155,6 @@ Definition flip_bits (data : list Z) (beta : Z -> bool) : Z -> bool :=
 
 Definition round_bits (D : rdesc) (beta : Z -> bool) : Z -> bool :=
   layers_bits (r_anc D) (combine (r_gates D) (r_parks D)) beta.
-
-Definition layers_ok (D : rdesc) : bool :=
-  disjointb (r_anc D) (r_data D) && nodupb (r_data D) && nodupb (r_anc D)
-  && (length (r_gates D) =? length (r_parks D))%nat
-  && forallb (layer_ok (r_anc D) (r_data D)) (r_gates D).
 
 Lemma round_run D dd m beta :
   layers_ok D = true -> m_st m =s ast beta none ->
